@@ -135,11 +135,34 @@ theorem sequential_history_sees_latest (g0 : Gen R O M) (ops : List (HOp R O M))
   have := (seqRun_spec ops (init g0) 0 (by intro r _; exact ⟨rfl, rfl⟩)).2 j g h
   simpa using this
 
-/-- … and the outcome assembled from those reads is `serve g`. -/
-theorem sequential_history_response (g : HGen) (q : HReq) :
-    (match triple g with
-     | [(_, Val.rules vr), (_, Val.mapper vm), (_, Val.options vo)] => serveFrom vr vm vo q
-     | _ => serve g q) = serve g q := rfl
+/-- The outcome a request assembles from what it has read (`none` until it has performed its three reads). -/
+def respOfObs (obs : List (Field × Val Rules Options Mapper)) (q : HReq) : Option Outcome :=
+  match obs with
+  | [(_, Val.rules vr), (_, Val.mapper vm), (_, Val.options vo)] => some (serveFrom vr vm vo q)
+  | _ => none
+
+/-- … and the response the `j`-th request of any sequential history produces is `serve g` of the
+generation installed by the last reload completed before it. -/
+theorem sequential_history_response (g0 : HGen) (ops : List (HOp Rules Options Mapper)) (j : Nat) (g : HGen)
+    (h : (expectedGens g0 ops)[j]? = some g) (q : HReq) :
+    respOfObs ((seqRun (init g0) 0 ops).reqs j).obs q = some (serve g q) := by
+  rw [sequential_history_sees_latest g0 ops j g h]
+  rfl
+
+/-- The `muxhist` judge's expectation (`histServe`, run on the parsed history) is exactly that: the
+list of `serve g q` with `g` ranging over `expectedGens` — so a response the judge accepts is the
+response `sequential_history_response` proves (`spec_accepts_model` for the sequential histories). -/
+theorem histServe_eq_expected (cur : HGen) (ops : List (Sum HGen HReq)) :
+    histServe cur ops =
+      List.zipWith serve
+        (expectedGens cur (ops.map fun o => match o with | .inl g => HOp.reload g | .inr _ => HOp.req))
+        (ops.filterMap fun o => match o with | .inl _ => none | .inr q => some q) := by
+  induction ops generalizing cur with
+  | nil => rfl
+  | cons o rest ih =>
+    cases o with
+    | inl g => simp [histServe, expectedGens, ih]
+    | inr q => simp [histServe, expectedGens, ih]
 
 /-! ### Non-vacuity and contrast -/
 
@@ -161,6 +184,34 @@ rests on the single load (regenerated fact `muxLoadsPerRequest = 1`). -/
 theorem reload_per_use_mixes :
     ¬ ∃ g ∈ (runReload (init gA) sched).hist,
         ∀ p ∈ ((runReload (init gA) sched).reqs 0).obs, p.2 = g.read p.1 := by decide
+
+/-! ### Non-vacuity at the HTTP instantiation (`HGen` = rules × options × mapper of an HTTPServer) -/
+
+private def hA : HGen :=
+  { rules := { cfg := { rules := [{ host := "a.com", paths := [{ path := "/x", backend := "p1" }] }] }, filters := [] },
+    options := { xForwardedFor := false }, mapper := { tag := "A", backends := ["p1"] } }
+/-- B differs from A *jointly* in rules (blocked client), options (X-Forwarded-For) and mapper (backend names). -/
+private def hB : HGen :=
+  { rules := { cfg := { ipFilter := some 0,
+                        rules := [{ host := "a.com", paths := [{ path := "/x", backend := "q1", rewriteTarget := "/y" }] }] },
+               filters := [{ blockByDefault := false, allowIPs := [], blockIPs := ["10.0.0.2"] }] },
+    options := { xForwardedFor := true }, mapper := { tag := "B", backends := ["q1"] } }
+private def hq (ip : String) : HReq :=
+  { q := { host := "a.com", hostNoPort := "a.com", method := "GET", path := "/x", hdr := [], ip := ip }, xffIn := "", xffContains := false }
+
+/-- request 0 loads under A, a reload to B is published between its reads, request 1 loads afterwards:
+request 0's response is entirely A's, request 1's entirely B's (other backend, rewritten path, XFF,
+and the blocked client is refused) — and a mixture (A's route with B's mapper) would have been a 503. -/
+example :
+    let s := run (init hA) [.load 0, .use 0 .rules, .build 7 hB, .store 7, .use 0 .mapper, .use 0 .options,
+                            .load 1, .use 1 .rules, .use 1 .mapper, .use 1 .options]
+    respOfObs (s.reqs 0).obs (hq "10.0.0.1") = some (serve hA (hq "10.0.0.1")) ∧
+      respOfObs (s.reqs 1).obs (hq "10.0.0.1") = some (serve hB (hq "10.0.0.1")) ∧
+      serve hA (hq "10.0.0.1") = ⟨200, "A:p1", "/x", ""⟩ ∧
+      serve hB (hq "10.0.0.1") = ⟨200, "B:q1", "/y", "10.0.0.1"⟩ ∧
+      (serve hB (hq "10.0.0.2")).status = 403 ∧
+      (serveFrom hA.rules hB.mapper hA.options (hq "10.0.0.1")).status = 503 := by
+  decide
 
 /-! ## Part 2 — registry: unchanged spec is a no-op; operating on one object never disturbs another -/
 
@@ -309,6 +360,212 @@ theorem original_reload_breaks_old_generation :
 `limit` requests (here 1). -/
 example : (rlScenario false specX specX [] [(false, ⟨"GET", "/a"⟩), (true, ⟨"GET", "/a"⟩)]).2 =
     [HOut.pass, HOut.limited] := by decide
+
+/-! ### Kafka / KafkaMQTT (repaired `Close` / `Handle`, `fixes/C11-kafka-handle-after-close.patch`) -/
+
+/-- The Kafka kinds are a `KindModel` whose `Inherit` leaves the previous generation alone and whose
+(repaired) `Close` keeps `Handle` panic-free — for every timing of the asynchronous producer shutdown. -/
+theorem kafkaKind_independent (shutdownDone : Bool) : (kafkaKind shutdownDone).Independent :=
+  ⟨fun _ _ => rfl, fun s _ => by
+    cases s with | mk c o => cases c <;> cases o <;> cases shutdownDone <;> simp [kafkaKind, kafkaClose, kafkaHandle]⟩
+
+/-- **Kafka / KafkaMQTT**: after `new.Inherit(old)` and `old.Close()` a request that still holds the old
+generation completes without panic — whether or not the producer's shutdown has already finished,
+and whatever state the old generation was in. It gets the kind's failure result, never a send on
+the closed input channel. -/
+theorem old_generation_usable_kafka (shutdownDone : Bool) (new old : KafkaSt) :
+    kafkaHandle ((kafkaKind shutdownDone).close ((kafkaKind shutdownDone).inherit new old).2) = KOut.failed ∧
+      (kafkaKind shutdownDone).usable ((kafkaKind shutdownDone).close ((kafkaKind shutdownDone).inherit new old).2) ∧
+      kafkaHandle ((kafkaKind shutdownDone).inherit new old).1 = KOut.sent := by
+  cases old with | mk c o => cases c <;> cases o <;> cases shutdownDone <;>
+    simp [kafkaKind, kafkaClose, kafkaHandle, kafkaInherit, kafkaInit]
+
+/-- … which is an instance of the generic statement. -/
+theorem old_generation_usable_kafka_generic (shutdownDone : Bool) (new old : KafkaSt)
+    (h : (kafkaKind shutdownDone).usable old) :
+    (kafkaKind shutdownDone).usable ((kafkaKind shutdownDone).close ((kafkaKind shutdownDone).inherit new old).2) :=
+  old_generation_usable_of_independent _ (kafkaKind_independent shutdownDone) new old h
+
+/-- The harness scenario under the repaired code, for every list of operations and both timings:
+no outcome is a panic; old-generation operations fail cleanly, new-generation ones send. -/
+theorem kafka_scenario_never_panics (shutdownDone : Bool) (ops : List Bool) :
+    ∀ o ∈ (kafkaScenario true shutdownDone ops).zip ops,
+      o.1 = (if o.2 then KOut.sent else KOut.failed) := by
+  induction ops with
+  | nil => simp [kafkaScenario]
+  | cons b rest ih =>
+    intro o ho
+    simp only [kafkaScenario, List.map_cons, List.zip_cons_cons, List.mem_cons] at ho ih
+    rcases ho with rfl | ho
+    · cases b <;> cases shutdownDone <;> simp [kafkaClose, kafkaHandle, kafkaInherit, kafkaInit]
+    · exact ih o ho
+
+/-- Witness against the code as found (replayed on the real code by the `kafka` / `kafkamqtt`
+harnesses, `corpus/C11/kafka.jsonl`): without the `closed` flag, once the producer's shutdown has
+finished the old generation's `Handle` is a send on a closed channel; before that it still sends
+(which is why a fixed short sleep does not show the defect); the repaired code fails cleanly in both cases. -/
+theorem original_kafka_close_breaks_old_generation :
+    kafkaScenario false true [false, true] = [KOut.panic, KOut.sent] ∧
+      kafkaScenario false false [false] = [KOut.sent] ∧
+      kafkaScenario true true [false, true] = [KOut.failed, KOut.sent] ∧
+      kafkaScenario true false [false] = [KOut.failed] := by decide
+
+/-! ## Extension `auth11`, round 2 — instances for `old_generation_usable_of_independent`, the
+RateLimiter scenario for all inputs -/
+
+/-- A `FieldKind` whose `Handle` reads no field its `Close` touches is `Independent`: `Inherit`
+leaves the previous generation alone and `Close` cannot change what `Handle` does. -/
+theorem fieldKind_independent (K : FieldKind) (wf : K.WellFormed)
+    (hd : ∀ x ∈ K.reads, x ∉ K.closeTouches) : K.toKindModel.Independent :=
+  ⟨fun _ _ => rfl, fun s hs => by
+    show K.handlePanics (K.closeFn s) = false
+    rw [wf.handle_dep (K.closeFn s) s (fun x hx => wf.close_frame s x (hd x hx))]
+    exact hs⟩
+
+open EgVerif.Gen in
+/-- **Regenerated obligation**: for every kind in `independentKinds` the source says (go/ast, per
+run) that `Inherit` does not mention the previous generation and that no receiver field `Close`
+(or a goroutine it wakes) assigns / closes / calls is mentioned by `Handle` or its callees. -/
+theorem close_disjoint_from_handle :
+    ∀ k ∈ independentKinds,
+      FactsC11.closeWritesHandleReads.lookup k = some [] ∧ FactsC11.filterKindTouchesPrev.lookup k = some false ∧
+        ∀ x ∈ (FactsC11.handleReads.lookup k).getD [], x ∉ (FactsC11.closeTouches.lookup k).getD [] := by decide
+
+open EgVerif.Gen in
+/-- Every exercised kind is in exactly one class: independent (above), explicitly modelled
+(RateLimiter, Kafka, KafkaMQTT) or `closeInterferingKinds` (Proxy, Validator: sampled only); and a
+kind with a non-empty intersection is never claimed independent. -/
+theorem close_interference_classified :
+    (∀ k ∈ exercisedFilterKinds,
+        k ∈ independentKinds ∨ k ∈ explicitlyModelledKinds ∨ k ∈ closeInterferingKinds.map (·.1)) ∧
+      (∀ k ∈ independentKinds ++ explicitlyModelledKinds ++ closeInterferingKinds.map (·.1), k ∈ exercisedFilterKinds) ∧
+      (∀ p ∈ FactsC11.closeWritesHandleReads, p.2 ≠ [] → p.1 ∉ independentKinds) ∧
+      (∀ k ∈ closeInterferingKinds.map (·.1), FactsC11.closeWritesHandleReads.lookup k ≠ some []) := by decide
+
+open EgVerif.Gen in
+/-- **Old generation usable, for the 15 independent kinds**: take any of them and *any* filter
+behaviour whose `Handle` depends on the receiver only through the regenerated `handleReads` and
+whose `Close` changes it only inside the regenerated `closeTouches`; then after `new.Inherit(old)`
+and `old.Close()` the old generation's `Handle` panics exactly if it did before — a usable old
+generation stays usable. (Instance of `old_generation_usable_of_independent`.) -/
+theorem old_generation_usable_independent_kinds (k : String) (hk : k ∈ independentKinds) (K : FieldKind)
+    (hr : K.reads = (FactsC11.handleReads.lookup k).getD [])
+    (hc : K.closeTouches = (FactsC11.closeTouches.lookup k).getD []) (wf : K.WellFormed)
+    (new old : Fields) (h : K.toKindModel.usable old) :
+    K.toKindModel.usable (K.toKindModel.close (K.toKindModel.inherit new old).2) := by
+  refine old_generation_usable_of_independent _ (fieldKind_independent K wf ?_) new old h
+  rw [hr, hc]
+  exact (close_disjoint_from_handle k hk).2.2
+
+/-- Non-vacuity: HeaderLookup with its regenerated field sets — `Handle` dereferences `cache`
+(nil ⇒ panic), `Close` calls `cancel` (modelled: clears `cancel` and `stopCtx`); the instance is
+well formed, an initialised old generation is usable, and stays so. -/
+private def hlKind : FieldKind :=
+  { reads := ["cache", "cluster", "etcdPrefix", "headerKey", "pathRegExp", "spec"],
+    closeTouches := ["cancel", "stopCtx"],
+    handlePanics := fun f => f "cache" == 0,
+    closeFn := fun f x => if x = "cancel" ∨ x = "stopCtx" then 0 else f x,
+    initFn := fun f => f }
+
+/-- The HeaderLookup instance satisfies the two modelling assumptions. -/
+theorem headerLookup_instance_wellFormed : hlKind.WellFormed :=
+  ⟨fun f g h => by simp [hlKind, h "cache" (by simp [hlKind])],
+   fun f x hx => by simp [hlKind] at hx ⊢; intro h; rcases h with h | h <;> simp [h] at hx⟩
+
+/-- The instance, through the generic theorem (literal field sets as read off the source when this was
+written; the regenerated ones enter through `old_generation_usable_independent_kinds`). -/
+example : hlKind.toKindModel.usable (hlKind.toKindModel.close (hlKind.toKindModel.inherit (fun _ => 1) (fun _ => 7)).2) :=
+  old_generation_usable_of_independent _
+    (fieldKind_independent hlKind headerLookup_instance_wellFormed (by decide)) _ _
+    (by simp [FieldKind.toKindModel, hlKind])
+
+/-- Non-vacuity of `old_generation_usable_independent_kinds`: for *every* independent kind the
+hypotheses are satisfiable with the regenerated field sets (whatever they currently are). -/
+example (k : String) (hk : k ∈ independentKinds) :
+    ∃ K : FieldKind, K.reads = (EgVerif.Gen.FactsC11.handleReads.lookup k).getD [] ∧
+      K.closeTouches = (EgVerif.Gen.FactsC11.closeTouches.lookup k).getD [] ∧ K.WellFormed ∧
+      K.toKindModel.usable (K.toKindModel.close (K.toKindModel.inherit (fun _ => 0) (fun _ => 1)).2) := by
+  let K : FieldKind := ⟨(EgVerif.Gen.FactsC11.handleReads.lookup k).getD [], (EgVerif.Gen.FactsC11.closeTouches.lookup k).getD [],
+    fun f => !((((EgVerif.Gen.FactsC11.handleReads.lookup k).getD []).map f).all (· == 1)), fun f x =>
+      if x ∈ (EgVerif.Gen.FactsC11.closeTouches.lookup k).getD [] then 5 else f x, id⟩
+  have wf : K.WellFormed := ⟨fun f g h => by
+      have : ((EgVerif.Gen.FactsC11.handleReads.lookup k).getD []).map f = ((EgVerif.Gen.FactsC11.handleReads.lookup k).getD []).map g :=
+        List.map_congr_left h
+      simp [K, this], fun f x hx => by simp [K] at hx ⊢; intro h; exact absurd h hx⟩
+  exact ⟨K, rfl, rfl, wf, old_generation_usable_independent_kinds k hk K rfl rfl wf _ _ (by simp [FieldKind.toKindModel, K])⟩
+
+/-- Contrast: a `Close` that clears a field `Handle` reads (mutant M12: `hl.cache = nil`) is not
+covered — the disjointness hypothesis fails, and indeed the old generation becomes unusable. -/
+example :
+    let K : FieldKind := { hlKind with closeTouches := ["cache", "cancel", "stopCtx"],
+                                       closeFn := fun f x => if x = "cache" ∨ x = "cancel" ∨ x = "stopCtx" then 0 else f x }
+    ¬ (∀ x ∈ K.reads, x ∉ K.closeTouches) ∧
+      K.toKindModel.usable (fun _ => 7) ∧ ¬ K.toKindModel.usable (K.toKindModel.close (fun _ => 7)) := by
+  simp [FieldKind.toKindModel, hlKind]
+
+open EgVerif.Gen in
+/-- The Kafka kinds' repaired shape, regenerated: every send on the producer's input in `Handle` is
+preceded by the read lock and the `closed` test; `Close` sets the flag under the write lock before
+`close(done)`. (Fails on the unrepaired tree.) -/
+theorem kafka_send_guarded :
+    FactsC11.kafkaSendGuarded.map (·.1) = kafkaHarnessKinds ∧ ∀ p ∈ FactsC11.kafkaSendGuarded, p.2 = true := by decide
+
+/-! ### The RateLimiter harness scenario, for all inputs -/
+
+/-- Traffic before the update on a usable generation: no panic, everything stays usable. -/
+theorem rlScenario_pre_never_panics (i : Heap × RLSpec) :
+    ∀ (qs : List FReq) (heap : Heap), rlUsable heap i.2 = true →
+      HOut.panic ∉ (rlScenario.goPre i heap qs).2 ∧
+        ∀ f', rlUsable heap f' = true → rlUsable (rlScenario.goPre i heap qs).1 f' = true := by
+  intro qs
+  induction qs with
+  | nil => intro heap _; exact ⟨by simp [rlScenario.goPre], fun f' h => by simpa [rlScenario.goPre] using h⟩
+  | cons q qs ih =>
+    intro heap hU
+    obtain ⟨hnp, hkeep⟩ := usable_handle_no_panic heap i.2 q hU
+    obtain ⟨h1, h2⟩ := ih (rlHandle heap q i.2.urls).1 (hkeep i.2 hU)
+    refine ⟨?_, fun f' hf' => ?_⟩
+    · simp only [rlScenario.goPre, List.mem_cons, not_or]
+      exact ⟨fun h => hnp h.symm, h1⟩
+    · simp only [rlScenario.goPre]
+      exact h2 f' (hkeep f' hf')
+
+/-- Interleaved traffic on two usable generations sharing the heap: no panic. -/
+theorem rlScenario_ops_never_panic (inh : Heap × RLSpec × RLSpec) :
+    ∀ (ops : List (Bool × FReq)) (heap : Heap), rlUsable heap inh.2.1 = true → rlUsable heap (rlClose inh.2.2) = true →
+      HOut.panic ∉ rlScenario.goOps inh heap ops := by
+  intro ops
+  induction ops with
+  | nil => intro heap _ _; simp [rlScenario.goOps]
+  | cons o ops ih =>
+    intro heap hN hO
+    obtain ⟨isNew, q⟩ := o
+    simp only [rlScenario.goOps, List.mem_cons, not_or]
+    cases isNew with
+    | true =>
+      obtain ⟨hnp, hkeep⟩ := usable_handle_no_panic heap inh.2.1 q hN
+      exact ⟨fun h => hnp (by simpa using h.symm), ih _ (hkeep _ hN) (hkeep _ hO)⟩
+    | false =>
+      obtain ⟨hnp, hkeep⟩ := usable_handle_no_panic heap (rlClose inh.2.2) q hO
+      exact ⟨fun h => hnp (by simpa using h.symm), ih _ (hkeep _ hN) (hkeep _ hO)⟩
+
+/-- **The whole RateLimiter scenario never panics (repaired `reload`)** — for every old spec, new
+spec, traffic before the update and interleaved traffic on the old and the new generation after
+`new.Inherit(old); old.Close()`: no `Handle` outcome is `panic`. (Induction over the request lists;
+this is the executable expectation the `filters` judge compares the real RateLimiter with.) -/
+theorem rlScenario_never_panics (old new : RLSpec) (pre : List FReq) (ops : List (Bool × FReq)) :
+    HOut.panic ∉ (rlScenario false old new pre ops).1 ∧ HOut.panic ∉ (rlScenario false old new pre ops).2 := by
+  simp only [rlScenario]
+  have hi := init_usable_ratelimiter [] old
+  obtain ⟨hp1, hp2⟩ := rlScenario_pre_never_panics (rlInit [] old) pre (rlInit [] old).1 hi
+  have hU := hp2 _ hi
+  refine ⟨hp1, rlScenario_ops_never_panic _ ops _ ?_ ?_⟩
+  · exact new_generation_usable_ratelimiter _ new _ hU
+  · exact old_generation_usable_ratelimiter _ new _ hU
+
+/-- Non-vacuity (kept from the first version, by evaluation): limiter shared, second request limited. -/
+example : (rlScenario false specX specX [⟨"GET", "/a"⟩] [(false, ⟨"GET", "/a"⟩), (true, ⟨"GET", "/b"⟩)]) =
+    ([HOut.pass], [HOut.limited, HOut.pass]) := by decide
 
 /-! ## Regenerated facts (the tie for the atomicity assumptions of Part 1 and the kind list of Part 3) -/
 
